@@ -59,8 +59,8 @@ def invariant_for_range(name, inv, havoc):
         ctx = I.ctx
         it = I.eval(st.iter, fr)
         from .models.arrays import SArr
-        if not (isinstance(it, SArr) and it.kind == 'range'):
-            # concrete range: plain unrolling is exact
+        if not (isinstance(it, SArr) and not isinstance(it.length, int)):
+            # concrete range / sequence: plain unrolling is exact
             for item in I.iterate(it):
                 I.assign(st.target, item, fr)
                 try:
